@@ -274,6 +274,38 @@ def check_hcflag_model(prog, rep):
                           'half', f.lineno)
 
 
+def check_hcflag_consumers(prog, rep):
+    """HCFLAG-model (exhaustive part): every function of the package outside the term containers
+    that reads BOTH stored term collections of a model (all_onsite_terms() and
+    all_coupling_terms()) builds a representation of the Hamiltonian from them; with
+    explicit_plus_hc the stored terms are one half of the operator, so the function adds the
+    hermitian conjugate under the flag, forwards the flag, or refuses."""
+    n = 0
+    for mod in prog.all_modules():
+        if mod.relpath.endswith('networks/terms.py'):
+            continue
+        for q, f in mod.functions.items():
+            calls = {c.func.attr for c in body_nodes(f) if isinstance(c, ast.Call) and
+                     isinstance(c.func, ast.Attribute)}
+            if not {'all_onsite_terms', 'all_coupling_terms'} <= calls:
+                continue
+            n += 1
+            src = unparse(f)
+            ok = _hc_added_under_flag(f, None) or bool(re.search(
+                r'explicit_plus_hc\s*=\s*\w+(\.\w+)*\.explicit_plus_hc', src)) or any(
+                    isinstance(s_, ast.Assign) and unparse(s_.targets[0]).endswith(
+                        '.explicit_plus_hc') for s_ in stmts_of(f))
+            rep.instance('HCFLAG-model', {'function': q, 'consumes_stored_terms': True,
+                                          'handles_flag': ok})
+            if not ok:
+                rep.violation('HCFLAG-model', mod, q, 'consumer-ignores-flag',
+                              '%s sums the stored on-site and coupling terms of a model but '
+                              'neither adds the hermitian conjugate under explicit_plus_hc nor '
+                              'forwards the flag: for a model built with explicit_plus_hc=True it '
+                              'represents only half of the Hamiltonian' % q, f.lineno)
+    return n
+
+
 def check_perm_undo(prog, rep):
     """exact_diag.py exports operators / wave functions in the user's basis order: `site.perm`
     (position in the charge-sorted basis -> original index) is only ever used there through
@@ -588,6 +620,8 @@ def run(prog, rep, tier):
     rep.rule('JW-model', 'operator placement APIs reach the Jordan-Wigner decision')
     n = check_plus_hc(prog, rep)
     check_hcflag_model(prog, rep)
+    if check_hcflag_consumers(prog, rep) < 2:
+        raise AnalysisError('HCFLAG-model: consumers of the stored terms not found')
     check_term_classes(prog, rep)
     check_jw_in_model(prog, rep)
     check_onsite_weights(prog, rep)
